@@ -7,7 +7,8 @@ Macro.__init__ (catch_kwargs <-> accesses_kwargs, catch_varargs <-> accesses_var
 <-> accesses_caller); every default is indexed ``node.defaults[idx - len(node.args)]`` (the
 declared parameters, never the emitted signature); Macro.__call__'s consumption protocol
 (positional slice, keyword fill with ``missing``, surplus keyword / positional -> TypeError
-unless caught); both call paths end in Macro.__call__.  Not decided: the binding result over
+unless caught); both call paths end in Macro.__call__.  Also: (skeletons) emitted calls pass every operand and the compiler's extra keywords as the bound names; keyword pass-through callables have no keyword-bindable parameter.  
+Not decided: the binding result over
 all signatures and call shapes - that is value arithmetic.
 """
 
